@@ -38,6 +38,27 @@ fn main() {
         smoke();
         return;
     }
+    if std::env::args().nth(1).as_deref() == Some("probe-ka") {
+        // a silent client; routing: discovery 33 s, filter 20 s; the timeout Disconnect (sent at 32 s) is accepted
+        // one byte and blocked until 34 s, i.e. until after discovery has answered
+        use sim::*;
+        for block_until in [0u64, 32_500, 34_000, 60_000] {
+            let mut case = Case::default();
+            case.script = Login::default().steps();
+            case.echo = Echo::Never;
+            case.adapters.disc_ms = 33_000;
+            case.adapters.filter_ms = 20_000;
+            case.horizon_ms = 120_000;
+            let base = run(&case);
+            let frame = base.packets.iter().position(|(_, p)| p.kind() == "ConfDisconnect");
+            if let (Some(f), true) = (frame, block_until > 0) {
+                case.transport.writes.push(WriteDev { frame: f, prog: vec![WStep::Accept(1), WStep::Until(block_until)] });
+            }
+            let o = run(&case);
+            println!("disconnect frame {frame:?} blocked until {block_until}: {:?} -> {:?} end {} calls {:?}", o.packets.iter().map(|(t, p)| (*t, p.kind())).collect::<Vec<_>>(), o.result, o.end_ms, o.calls.iter().map(|c| (c.t(), c.kind())).collect::<Vec<_>>());
+        }
+        return;
+    }
     let cli = common::cli();
     match cli.id.as_str() {
         "C01" => c01::run(cli),
